@@ -306,7 +306,10 @@ func (WireOracle) AtEnd(m *VM) {
 				origin = b.FromTok
 			}
 		}
-		k := fmt.Sprintf("%d|%s|%+v", origin, rec.V.Az.Canon(), m.Plan.Ops[rec.I].KS)
+		if rec.Call.StallNs > 0 || rec.Call.Idle > 0 || strings.HasPrefix(rec.V.Class, "limit") {
+			continue // a stalled clock may legitimately turn one of the two evaluations into a timeout
+		}
+		k := fmt.Sprintf("%d|%s|%+v|%+v", origin, rec.V.Az.Canon(), m.Plan.Ops[rec.I].KS, rec.V.Lim)
 		cls := rec.V.AzErr + "/" + rec.V.Class
 		if prev, ok := seen[k]; ok {
 			m.Probe("wire_behaviour_compared")
